@@ -145,11 +145,17 @@ class Storage(Machine):
         ops = [{"kind": "setup", "i": 0, "envs": envs, "kconfigs": kconfigs, "pairs": pairs}]
         n = s.randint(3, 8) if tier == "quick" else s.randint(4, 20)
         names = [e["name"] for e in envs]
+        cur = {k: v for k, v in kconfigs.items()}  # what each configuration *file* currently holds
         for _ in range(n):
             i = len(ops)
             r = s.random()
             if r < 0.07:
                 ops.append({"kind": "restart", "i": i})
+            elif r < 0.14:
+                # the build system regenerates a configuration file in place: same path, other assignments
+                name, src = s.choice(["k_valid", "k_other", "k_default_moved"]), s.choice(sorted(kconfigs))
+                ops.append({"kind": "kconfig_rewrite", "i": i, "name": name, "as": src})
+                cur[name] = kconfigs[src]
             elif r < 0.25:
                 v, c = s.choice(pairs) if s.chance(0.6) else (NORDIC, s.choice(DEFAULT_CLASSES["nrf54h20"])[0])
                 ops.append({"kind": "mpi", "i": i, "vendor": v, "class": c,
@@ -160,8 +166,8 @@ class Storage(Machine):
                 k = s.choice([None, None, "k_valid", "k_valid", "k_other", "k_dup", "k_default_moved"])
                 # role each envelope would get under this soc / kconfig (plan-side copy of the model)
                 table = {(NORDIC, c): r for c, r in DEFAULT_CLASSES[soc]}
-                if k and k != "k_dup":
-                    for role, (v, c) in kconfigs[k]:
+                if k and len({tuple(p) for _, p in cur[k]}) == len(cur[k]):
+                    for role, (v, c) in cur[k]:
                         table[(v, c)] = role
                 by_role = {}
                 for e in envs:
@@ -232,6 +238,13 @@ class Storage(Machine):
             host.restart_soft()
             model["boots_in_interp"] = 0
             return []
+        if k == "kconfig_rewrite":
+            rows = model["kconfig_defs"][op["as"]]
+            self._write_kconfig(host, op["name"], rows)
+            model["kconfigs"][op["name"]] = rows
+            model["_extra"]["kconfig_rewritten_in_place"] = model["_extra"].get("kconfig_rewritten_in_place", 0) + 1
+            host.log_line({"kconfig_rewrite": op["name"], "as": op["as"]})
+            return []
         if k == "mpi":
             return self._mpi(host, model, op, prop)
         if k == "boot":
@@ -241,13 +254,9 @@ class Storage(Machine):
     def _setup(self, host, model, op, prop):
         ex = model["_extra"]
         vs = []
+        model["kconfig_defs"] = op["kconfigs"]
         for kname, rows in op["kconfigs"].items():
-            lines = ["# generated", "CONFIG_SOMETHING=y", "SB_CONFIG_OTHER=0x10"]
-            for role, (v, c) in rows:
-                tag = KCONFIG_ROLE_NAMES.get(role, role)
-                lines.append(f'SB_CONFIG_SUIT_MPI_{tag}_VENDOR_NAME="{v}"')
-                lines.append(f'SB_CONFIG_SUIT_MPI_{tag}_CLASS_NAME="{c}"')
-            host.write(f"{kname}.config", "\n".join(lines) + "\n")
+            self._write_kconfig(host, kname, rows)
             model["kconfigs"][kname] = rows
         for e in op["envs"]:
             s = Stream(e["gen"], "env")
@@ -302,6 +311,15 @@ class Storage(Machine):
                                         f"create derived vendor/class ids {got_v and got_v[0].hex()}/{got_c and got_c[0].hex()}/"
                                         f"{mc.hex() if mc else mc} for ({e['vendor']!r},{e['class']!r}); UUIDv5 gives {vid.hex()}/{cid.hex()}"))
         return vs
+
+    @staticmethod
+    def _write_kconfig(host, kname, rows):
+        lines = ["# generated", "CONFIG_SOMETHING=y", "SB_CONFIG_OTHER=0x10"]
+        for role, (v, c) in rows:
+            tag = KCONFIG_ROLE_NAMES.get(role, role)
+            lines.append(f'SB_CONFIG_SUIT_MPI_{tag}_VENDOR_NAME="{v}"')
+            lines.append(f'SB_CONFIG_SUIT_MPI_{tag}_CLASS_NAME="{c}"')
+        host.write(f"{kname}.config", "\n".join(lines) + "\n")
 
     # -- mpi -----------------------------------------------------------------------------------------------------------
     def _mpi(self, host, model, op, prop):
